@@ -59,7 +59,8 @@ pub struct ClientInner {
     pub behav: HashMap<String, Behav>,
     pub received: Mutex<Vec<RecvReq>>,
     pub start: tokio::time::Instant,
-    pub account_rx: Mutex<Option<mpsc::UnboundedReceiver<UnindexedAccountEvent>>>,
+    /// one receiver per account-stream connection, handed out in order (re-connections take the next)
+    pub account_rx: Mutex<std::collections::VecDeque<mpsc::UnboundedReceiver<UnindexedAccountEvent>>>,
     pub snapshot: UnindexedAccountSnapshot,
     pub snapshot_calls: Mutex<u64>,
 }
@@ -80,12 +81,19 @@ impl SimClient {
                 behav,
                 received: Mutex::new(Vec::new()),
                 start: tokio::time::Instant::now(),
-                account_rx: Mutex::new(Some(rx)),
+                account_rx: Mutex::new(std::collections::VecDeque::from([rx])),
                 snapshot,
                 snapshot_calls: Mutex::new(0),
             })),
             tx,
         )
+    }
+
+    /// Prepare one more account-stream connection (used after the current one is dropped).
+    pub fn add_connection(&self) -> mpsc::UnboundedSender<UnindexedAccountEvent> {
+        let (tx, rx) = mpsc::unbounded_channel();
+        self.0.account_rx.lock().unwrap().push_back(rx);
+        tx
     }
 
     fn now_ms(&self) -> u64 {
@@ -131,7 +139,7 @@ impl ExecutionClient for SimClient {
         _: &[AssetNameExchange],
         _: &[InstrumentNameExchange],
     ) -> Result<Self::AccountStream, UnindexedClientError> {
-        match self.0.account_rx.lock().unwrap().take() {
+        match self.0.account_rx.lock().unwrap().pop_front() {
             Some(rx) => Ok(UnboundedReceiverStream::new(rx)),
             None => Err(UnindexedClientError::AccountStream(
                 "sim: account stream already taken".into(),
@@ -158,7 +166,11 @@ impl ExecutionClient for SimClient {
             instrument: key.instrument.name().to_string(),
             cid: cid.clone(),
         });
-        let b = me.behav(&cid);
+        // a cancel may be scripted separately from the open of the same order ("x:<cid>")
+        let b = match me.0.behav.get(&format!("x:{cid}")) {
+            Some(b) => *b,
+            None => me.behav(&cid),
+        };
         async move {
             wait(b).await;
             let state = match b.resp {
